@@ -10,6 +10,52 @@ import Nq.Lemmas.DaemonMain
 namespace Nq.Lemmas.BD
 open Nq Nq.Daemon Nq.BounceDaemon
 
+/-! ### `isInfix` -/
+
+theorem isInfix_iff (pat : Bytes) : ∀ (s : Bytes), isInfix pat s = true ↔ ∃ a b, s = a ++ pat ++ b
+  | [] => by
+    simp only [isInfix]
+    constructor
+    · intro h; exact ⟨[], [], by simp at h; simp [h]⟩
+    · rintro ⟨a, b, h⟩
+      have : pat = [] := by
+        cases pat with
+        | nil => rfl
+        | cons c t => cases a <;> simp at h
+      simp [this]
+  | c :: t => by
+    simp only [isInfix, Bool.or_eq_true, List.isPrefixOf_iff_prefix, isInfix_iff pat t]
+    constructor
+    · rintro (⟨b, hb⟩ | ⟨a, b, h⟩)
+      · exact ⟨[], b, by simp [hb]⟩
+      · exact ⟨c :: a, b, by simp [h]⟩
+    · rintro ⟨a, b, h⟩
+      cases a with
+      | nil => left; exact ⟨b, by simpa using h.symm⟩
+      | cons a0 a' =>
+        right
+        simp only [List.cons_append, List.cons.injEq] at h
+        exact ⟨a', b, h.2⟩
+
+theorem isInfix_mid (a pat b : Bytes) : isInfix pat (a ++ pat ++ b) = true := (isInfix_iff pat _).2 ⟨a, b, rfl⟩
+
+theorem isInfix_trans (a b c : Bytes) (h1 : isInfix a b = true) (h2 : isInfix b c = true) : isInfix a c = true := by
+  obtain ⟨p, q, rfl⟩ := (isInfix_iff a b).1 h1
+  obtain ⟨r, t, rfl⟩ := (isInfix_iff _ c).1 h2
+  exact (isInfix_iff a _).2 ⟨r ++ p, q ++ t, by simp⟩
+
+theorem isInfix_fileOf (parts : List Bytes) (p : Bytes) (h : p ∈ parts) : isInfix p (fileOf parts) = true := by
+  have h' : p ∈ parts.reverse := List.mem_reverse.2 h
+  obtain ⟨u, v, huv⟩ := List.append_of_mem h'
+  exact (isInfix_iff p _).2 ⟨u.flatten, v.flatten, by simp [fileOf, huv]⟩
+
+theorem isInfix_append_right (p a b : Bytes) (h : isInfix p a = true) : isInfix p (a ++ b) = true := by
+  obtain ⟨u, v, rfl⟩ := (isInfix_iff p a).1 h
+  exact (isInfix_iff p _).2 ⟨u, v ++ b, by simp⟩
+
+theorem isInfix_self_right (a p : Bytes) : isInfix p (a ++ p) = true :=
+  (isInfix_iff p _).2 ⟨a, [], by simp⟩
+
 /-! ### the part of a message's state the bounce record depends on -/
 
 structure BV where
@@ -23,10 +69,12 @@ structure BV where
   discarded : Bool
   lost : Bool
   lastInject : Bool
+  lostRecs : List (Ch × Nat)
 
 def bv (ms : MsgSt) : BV :=
   { todo := ms.todo.isSome, accepted := ms.accepted, info := ms.info, bounce := ms.bounce, noted := ms.noted, inFile := ms.inFile,
-    bounced := ms.bounced, discarded := ms.discarded, lost := ms.lost, lastInject := ms.lastInject }
+    bounced := ms.bounced, discarded := ms.discarded, lost := ms.lost, lastInject := ms.lastInject,
+    lostRecs := ms.lostRecs }
 
 /-- well-formedness of one recorded injection -/
 structure SentOK (cfg : Cfg) (v : BV) (x : Sent) : Prop where
@@ -37,6 +85,8 @@ structure SentOK (cfg : Cfg) (v : BV) (x : Sent) : Prop where
   sender : ∀ info, v.info = some info → x.sender = senderOf info
   acc : ∀ sd r, v.accepted = some (sd, r) → x.sender = sd
   intact : v.lost = false → x.parts ≠ [] ∧ x.file = fileOf x.parts
+  /-- per record: the text appended for a record that is not among the crash-lost ones is in the file that was injected -/
+  kept : ∀ pr ∈ List.zip x.paras x.parts, pr.1 ∉ v.lostRecs → isInfix pr.2 x.file = true
 
 /-- the history invariant of one message -/
 structure GMInv (cfg : Cfg) (v : BV) (gm : GMsg) : Prop where
@@ -56,6 +106,8 @@ structure GMInv (cfg : Cfg) (v : BV) (gm : GMsg) : Prop where
   c6 : ∀ x ∈ gm.attempts, SentOK cfg v x
   c6a : ∀ x ∈ gm.committed, x ∈ gm.attempts
   c8 : gm.dropped ≠ [] → v.discarded = true
+  /-- per record: the text appended for a record of the current file that is not among the crash-lost ones is in the file -/
+  p1 : ∀ pr ∈ List.zip v.inFile gm.parts, pr.1 ∉ v.lostRecs → isInfix pr.2 (v.bounce.getD []) = true
 
 def GInv (cfg : Cfg) (s : St) (g : Ghost) : Prop := ∀ k, GMInv cfg (bv (s.msg k)) (g k)
 
@@ -72,6 +124,7 @@ theorem gminv_empty (cfg : Cfg) (v : BV) (hb : v.bounce = none) (h1 : v.noted = 
   · intro x h; cases h
   · intro x h; cases h
   · intro h; exact absurd rfl h
+  · intro pr hpr; simp [h2] at hpr
 
 theorem ginv_init (cfg : Cfg) : GInv cfg ginit.1 ginit.2 := by
   intro k
@@ -171,8 +224,10 @@ theorem bv_feedReports (cfg : Cfg) (c : Ch) : ∀ (bs : Bytes) (s : St) (k : Nat
 
 theorem sentOK_mono (cfg : Cfg) (v v' : BV) (x : Sent) (h : SentOK cfg v x)
     (hinfo : v'.info = v.info ∨ v'.info = none) (hlost : v'.lost = false → v.lost = false)
-    (hacc : v'.accepted = v.accepted := by rfl) : SentOK cfg v' x := by
-  refine ⟨h.inf, h.env, h.notdb, h.len, ?_, fun sd r ha => h.acc sd r (by rw [← hacc]; exact ha), fun hl => h.intact (hlost hl)⟩
+    (hacc : v'.accepted = v.accepted := by rfl)
+    (hlr : ∀ r, r ∈ v.lostRecs → r ∈ v'.lostRecs := by intro r h; exact h) : SentOK cfg v' x := by
+  refine ⟨h.inf, h.env, h.notdb, h.len, ?_, fun sd r ha => h.acc sd r (by rw [← hacc]; exact ha), fun hl => h.intact (hlost hl),
+    fun pr hpr hn => h.kept pr hpr (fun hm => hn (hlr _ hm))⟩
   intro info hi
   rcases hinfo with e | e
   · exact h.sender info (by rw [← e]; exact hi)
@@ -205,6 +260,12 @@ theorem gminv_append (cfg : Cfg) (v : BV) (gm : GMsg) (a : Ch × Nat) (bs : Byte
   · intro x hx; exact sentOK_mono cfg v _ x (h.c6 x hx) (Or.inl rfl) (fun hl => hl)
   · exact h.c6a
   · exact h.c8
+  · intro pr hpr hn
+    simp only [List.zip_cons_cons, List.mem_cons] at hpr
+    simp only [Option.getD_some]
+    rcases hpr with rfl | hpr
+    · exact isInfix_self_right _ _
+    · exact isInfix_append_right _ _ _ (h.p1 pr hpr hn)
 
 theorem gminv_inject_fail (cfg : Cfg) (v : BV) (gm : GMsg) (h : GMInv cfg v gm) (ht : v.todo = false) :
     GMInv cfg { v with lastInject := false } { gm with last := none } := by
@@ -219,6 +280,7 @@ theorem gminv_inject_fail (cfg : Cfg) (v : BV) (gm : GMsg) (h : GMInv cfg v gm) 
   · intro x hx; exact sentOK_mono cfg v _ x (h.c6 x hx) (Or.inl rfl) (fun hl => hl)
   · exact h.c6a
   · exact h.c8
+  · exact h.p1
 
 theorem gminv_inject_ok (cfg : Cfg) (v : BV) (gm : GMsg) (info file env body : Bytes) (h : GMInv cfg v gm)
     (ht : v.todo = false) (hi : v.info = some info) (hb : v.bounce = some file)
@@ -228,7 +290,7 @@ theorem gminv_inject_ok (cfg : Cfg) (v : BV) (gm : GMsg) (info file env body : B
       { gm with last := some ⟨senderOf (v.info.getD []), env, body, v.bounce.getD [], v.inFile, gm.parts⟩,
                 attempts := ⟨senderOf (v.info.getD []), env, body, v.bounce.getD [], v.inFile, gm.parts⟩ :: gm.attempts } := by
   have hsnt : SentOK cfg v ⟨senderOf (v.info.getD []), env, body, v.bounce.getD [], v.inFile, gm.parts⟩ := by
-    refine ⟨by simp [hb, hinf], by simp [hi, henv], by simp [hi, hdb], by simp [h.c3], ?_, ?_, ?_⟩
+    refine ⟨by simp [hb, hinf], by simp [hi, henv], by simp [hi, hdb], by simp [h.c3], ?_, ?_, ?_, ?_⟩
     · intro info' hi'; rw [hi] at hi'; cases hi'; simp [hi]
     · intro sd r ha; simp only [hi, Option.getD_some]; exact hacc sd r ha
     · intro hl
@@ -237,6 +299,7 @@ theorem gminv_inject_ok (cfg : Cfg) (v : BV) (gm : GMsg) (info file env body : B
       by_cases hp : gm.parts = []
       · simp [hp] at h4
       · simp [hp] at h4; exact ⟨hp, by simp [hb, h4]⟩
+    · exact h.p1
   constructor
   · intro h'; simp [ht] at h'
   · exact h.c1
@@ -251,6 +314,7 @@ theorem gminv_inject_ok (cfg : Cfg) (v : BV) (gm : GMsg) (info file env body : B
     · exact sentOK_mono cfg v _ x (h.c6 x hx) (Or.inl rfl) (fun hl => hl)
   · intro x hx; exact List.mem_cons_of_mem _ (h.c6a x hx)
   · exact h.c8
+  · exact h.p1
 
 theorem gminv_unlink_discard (cfg : Cfg) (v : BV) (gm : GMsg) (h : GMInv cfg v gm) (ht : v.todo = false) :
     GMInv cfg { v with bounce := none, inFile := [], discarded := true }
@@ -269,6 +333,7 @@ theorem gminv_unlink_discard (cfg : Cfg) (v : BV) (gm : GMsg) (h : GMInv cfg v g
   · intro x hx; exact sentOK_mono cfg v _ x (h.c6 x hx) (Or.inl rfl) (fun hl => hl)
   · exact h.c6a
   · intro _; rfl
+  · intro pr hpr; simp at hpr
 
 theorem gminv_unlink_ok (cfg : Cfg) (v : BV) (gm : GMsg) (h : GMInv cfg v gm) (ht : v.todo = false)
     (hl : v.lastInject = true) (hb : v.bounce ≠ none) :
@@ -293,9 +358,12 @@ theorem gminv_unlink_ok (cfg : Cfg) (v : BV) (gm : GMsg) (h : GMInv cfg v gm) (h
     · exact h.c5a _ hx
     · exact h.c6a y hy
   · exact h.c8
+  · intro pr hpr; simp at hpr
 
 theorem gminv_crash (cfg : Cfg) (v : BV) (gm : GMsg) (content : Bytes) (h : GMInv cfg v gm) (ht : v.todo = false) :
-    GMInv cfg { v with bounce := some content, lost := true, lastInject := false } { gm with last := none } := by
+    GMInv cfg { v with bounce := some content, lost := true, lastInject := false,
+                       lostRecs := (if (v.bounce.getD []).isPrefixOf content then [] else v.inFile) ++ v.lostRecs }
+      { gm with last := none } := by
   constructor
   · intro h'; simp [ht] at h'
   · exact h.c1
@@ -304,9 +372,21 @@ theorem gminv_crash (cfg : Cfg) (v : BV) (gm : GMsg) (content : Bytes) (h : GMIn
   · intro h'; simp at h'
   · intro h'; simp at h'
   · intro x h'; simp at h'
-  · intro x hx; exact sentOK_mono cfg v _ x (h.c6 x hx) (Or.inl rfl) (fun hl => by simp at hl)
+  · intro x hx
+    exact sentOK_mono cfg v _ x (h.c6 x hx) (Or.inl rfl) (fun hl => by simp at hl) rfl
+      (fun r hr => List.mem_append_right _ hr)
   · exact h.c6a
   · exact h.c8
+  · intro pr hpr hn
+    simp only [Option.getD_some]
+    by_cases hp : (v.bounce.getD []).isPrefixOf content = true
+    · simp only [hp, if_true, List.nil_append] at hn
+      obtain ⟨rest, hrest⟩ := List.isPrefixOf_iff_prefix.1 hp
+      rw [← hrest]
+      exact isInfix_append_right _ _ _ (h.p1 pr hpr hn)
+    · exfalso
+      simp only [hp, if_false] at hn
+      exact hn (List.mem_append_left _ (List.of_mem_zip hpr).1)
 
 theorem gminv_info_none (cfg : Cfg) (v : BV) (gm : GMsg) (h : GMInv cfg v gm) :
     GMInv cfg { v with info := none } gm := by
@@ -321,6 +401,7 @@ theorem gminv_info_none (cfg : Cfg) (v : BV) (gm : GMsg) (h : GMInv cfg v gm) :
   · intro x hx; exact sentOK_mono cfg v _ x (h.c6 x hx) (Or.inr rfl) (fun hl => hl)
   · exact h.c6a
   · exact h.c8
+  · exact h.p1
 
 theorem gminv_todo_done (cfg : Cfg) (v : BV) (gm : GMsg) (h : GMInv cfg v gm) (ht : v.todo = true) :
     GMInv cfg { v with todo := false, noted := [], inFile := [], bounced := [] } gm := by
@@ -727,45 +808,6 @@ theorem inject_bounce_some (cfg : Cfg) (s : St) (m : Nat) (ok : Bool) (env body 
   · split at h
     · rename_i file _ hfile; exact ⟨file, hfile⟩
     · cases h
-
-/-! ### `isInfix` -/
-
-theorem isInfix_iff (pat : Bytes) : ∀ (s : Bytes), isInfix pat s = true ↔ ∃ a b, s = a ++ pat ++ b
-  | [] => by
-    simp only [isInfix]
-    constructor
-    · intro h; exact ⟨[], [], by simp at h; simp [h]⟩
-    · rintro ⟨a, b, h⟩
-      have : pat = [] := by
-        cases pat with
-        | nil => rfl
-        | cons c t => cases a <;> simp at h
-      simp [this]
-  | c :: t => by
-    simp only [isInfix, Bool.or_eq_true, List.isPrefixOf_iff_prefix, isInfix_iff pat t]
-    constructor
-    · rintro (⟨b, hb⟩ | ⟨a, b, h⟩)
-      · exact ⟨[], b, by simp [hb]⟩
-      · exact ⟨c :: a, b, by simp [h]⟩
-    · rintro ⟨a, b, h⟩
-      cases a with
-      | nil => left; exact ⟨b, by simpa using h.symm⟩
-      | cons a0 a' =>
-        right
-        simp only [List.cons_append, List.cons.injEq] at h
-        exact ⟨a', b, h.2⟩
-
-theorem isInfix_mid (a pat b : Bytes) : isInfix pat (a ++ pat ++ b) = true := (isInfix_iff pat _).2 ⟨a, b, rfl⟩
-
-theorem isInfix_trans (a b c : Bytes) (h1 : isInfix a b = true) (h2 : isInfix b c = true) : isInfix a c = true := by
-  obtain ⟨p, q, rfl⟩ := (isInfix_iff a b).1 h1
-  obtain ⟨r, t, rfl⟩ := (isInfix_iff _ c).1 h2
-  exact (isInfix_iff a _).2 ⟨r ++ p, q ++ t, by simp⟩
-
-theorem isInfix_fileOf (parts : List Bytes) (p : Bytes) (h : p ∈ parts) : isInfix p (fileOf parts) = true := by
-  have h' : p ∈ parts.reverse := List.mem_reverse.2 h
-  obtain ⟨u, v, huv⟩ := List.append_of_mem h'
-  exact (isInfix_iff p _).2 ⟨u.flatten, v.flatten, by simp [fileOf, huv]⟩
 
 /-! ### bridge between `Nq.Bounce.inject` and the monitor's guards -/
 
